@@ -178,7 +178,9 @@ func (w *world) stepDeliverFault(m *message, k int) bool {
 	w.emitted = nil
 	w.take(m)
 	var err error
+	w.curDepth = m.depth
 	fired, kind, _ := w.faulty(m.to, k, func() { err = w.deliver(m) })
+	w.curDepth = 0
 	if !fired {
 		w.r.Count("op.deliver." + string(rune(m.k)))
 		w.after(fmt.Sprintf("dlv %d", m.mid), m.to, "sync.deliver."+string(rune(m.k)))
@@ -265,7 +267,9 @@ func (w *world) take(m *message) {
 func (w *world) stepDeliver(m *message) {
 	w.emitted = nil
 	w.take(m)
+	w.curDepth = m.depth
 	err := w.deliver(m)
+	w.curDepth = 0
 	w.r.Count("op.deliver." + string(rune(m.k)))
 	if err != nil {
 		w.r.Count("err.deliver." + string(rune(m.k)) + "." + errKind(err))
@@ -328,6 +332,12 @@ func (w *world) between(i, j int) *message {
 // each other (a responder that never satisfies the requester), the exchange is cut after
 // maxExchange deliveries, what is left between the two is dropped, and the final oracle decides.
 func (w *world) exchange(i, j int) bool {
+	// causal depth is counted from the start of the exchange
+	for _, m := range w.net {
+		if (m.from == i && m.to == j) || (m.from == j && m.to == i) {
+			m.depth = 0
+		}
+	}
 	w.stepSync(i, j)
 	for n := 0; !w.failed; n++ {
 		m := w.between(i, j)
@@ -335,6 +345,22 @@ func (w *world) exchange(i, j int) bool {
 			return true
 		}
 		if n >= maxExchange {
+			// absolute safety cap: the exchange is merely long (many duplicates, one-change
+			// batches): the phase did not complete and the convergence oracle must not judge
+			w.r.Count("exchange.unfinished")
+			w.unjudged = true
+			for m := w.between(i, j); m != nil && !w.failed; m = w.between(i, j) {
+				w.stepDrop(m)
+			}
+			return !w.failed
+		}
+		if m.depth > w.maxDepthSeen {
+			w.maxDepthSeen = m.depth
+		}
+		if m.depth > maxChain {
+			// the two keep answering each other: request -> responses -> counter-request -> ... .
+			// In the protocol such a chain ends after three requests (heads are equal by then);
+			// a chain this long never ends. Cut it, drop the rest, and let the oracle decide.
 			w.r.Count("exchange.cut")
 			for m := w.between(i, j); m != nil && !w.failed; m = w.between(i, j) {
 				w.stepDrop(m)
@@ -346,7 +372,13 @@ func (w *world) exchange(i, j int) bool {
 	return false
 }
 
-const maxExchange = 600
+// maxChain: longest causal chain of deliveries inside one exchange before it is declared endless
+// (sync request, responses, applied -> forwarded update, counter-request, ...: the unchanged code
+// stays below 10). maxExchange: absolute cap on the deliveries of one exchange (not judged).
+const (
+	maxChain    = 24
+	maxExchange = 30000
+)
 
 // drain empties the network: mode 0 drops everything, 1 delivers everything (FIFO) until
 // quiescent, 2 decides per message. After maxDrain deliveries the rest is dropped.
@@ -437,6 +469,10 @@ func (w *world) antiEntropy(rounds int) {
 	}
 	sets, heads, roots := w.finalState()
 	if w.failed {
+		return
+	}
+	if w.unjudged {
+		w.r.Count("phase.unjudged")
 		return
 	}
 	for i := 1; i < w.n; i++ {
@@ -556,6 +592,7 @@ func (w *world) summary() {
 		}
 	}
 	w.r.Count(fmt.Sprintf("replicas.%d", w.n))
+	w.r.Count(fmt.Sprintf("exchange.maxchain.%02d", w.maxDepthSeen))
 	w.r.CountN("changes.total", len(w.chs)-1)
 	w.r.CountN("changes.snapshots", snaps-1)
 	w.r.CountN("changes.merges", merges)
@@ -599,11 +636,12 @@ func Run(r *corr.Run) {
 	}
 
 	// 1. guard-directed scenarios (fixed shapes, every seed), then the stale-fork family (quick: a
-	// seed-dependent quarter of it)
+	// seed-dependent sixth of it)
 	all := scenarios()
 	all = append(all, manyHeadsFamily()...)
+	all = append(all, laggingRootFamily()...)
 	for _, sc := range staleForkFamily(r) {
-		if r.Quick() && r.Intn(4) != 0 {
+		if r.Quick() && r.Intn(6) != 0 {
 			continue
 		}
 		all = append(all, sc)
